@@ -857,6 +857,13 @@ fn main() {
             // VERIF_POLICIES_LIMITS=mainnet keeps the SDK's emulation of the network's resource limits on
             let limits = std::env::var("VERIF_POLICIES_LIMITS").unwrap_or_else(|_| "off".to_string());
             let limits = limits.as_str();
+            // Known finding (known_findings.json, C14): with the network's ledger-entry size limit emulated, the
+            // spending history cannot grow to MAX_HISTORY_ENTRIES; the first of the parallel drivers reproduces it.
+            if seed % 1000 == 0 && limits != "mainnet" {
+                let mut sys = Sys::new("spending", 3, 0, 0, "mainnet");
+                t.reset(sys.reset_event());
+                drive_spending_long(&mut sys, &mut r, &mut t);
+            }
             for run in 0..runs {
                 let nsig = *pick(&mut r, &[1usize, 2, 3, 3, 4, 5, 8, 15]);
                 match run % 3 {
